@@ -462,14 +462,29 @@ func (r *runner) run() (valid bool) {
 	return r.tLast.Sub(r.t0) < tickGuard
 }
 
+// maxHangs: a loop that blocks costs hangAfter of wall time per case; after this many stuck cases the remaining
+// hub cases are not executed (one "skipped" line says how many).
+const maxHangs = 8
+
+var hangs int
+
 func runHub(h int, c Case) ([]any, error) {
-	for try := 0; try < 6; try++ {
+	hungOnce := false
+	for try := 0; try < 12; try++ {
 		r := newRunner(h, c)
-		if r.run() {
-			return r.lines, nil
+		if !r.run() {
+			continue // took too long: the loop's own ticker may have interfered
 		}
+		if r.hang.Load() && !hungOnce {
+			hungOnce = true // a stuck loop is deterministic: believe it only if it happens again
+			continue
+		}
+		if r.hang.Load() {
+			hangs++
+		}
+		return r.lines, nil
 	}
-	return nil, fmt.Errorf("case %d: could not finish within %v of the hub's start in 6 attempts (machine overloaded?)", h, tickGuard)
+	return nil, fmt.Errorf("case %d: could not finish within %v of the hub's start in 12 attempts (machine overloaded?)", h, tickGuard)
 }
 
 // Exec runs the cases of `in` and writes the observed trace to `out`.
@@ -489,7 +504,7 @@ func Exec(in, out string) error {
 	enc := json.NewEncoder(bw)
 	sc := bufio.NewScanner(fi)
 	sc.Buffer(make([]byte, 1<<20), 1<<28)
-	h := 0
+	h, skipped := 0, 0
 	for sc.Scan() {
 		if len(sc.Bytes()) == 0 {
 			continue
@@ -501,6 +516,11 @@ func Exec(in, out string) error {
 		var lines []any
 		switch c.Kind {
 		case "", "hub":
+			if hangs >= maxHangs {
+				skipped++
+				h++
+				continue
+			}
 			lines, err = runHub(h, c)
 			if err != nil {
 				return err
@@ -516,6 +536,11 @@ func Exec(in, out string) error {
 			}
 		}
 		h++
+	}
+	if skipped > 0 {
+		if err := enc.Encode(map[string]any{"k": "skipped", "n": skipped}); err != nil {
+			return err
+		}
 	}
 	return sc.Err()
 }
